@@ -174,12 +174,14 @@ def run(ctx: Ctx):
         if broken[cfg] != want:
             raise tlc.MachineryError(f"broken variant {cfg} no longer violates {want} (vacuity): TLC reported {broken[cfg]}")
     ctx.notes["broken_variants_violate"] = broken
+    ctx.notes["phase_s"] = {"tlc": round(ctx.elapsed(), 1)}
     ctx.exhaustive = True  # the bounded models were enumerated completely
 
     jobs = [("model", h) for h in model_h] + [("directed", h) for h in cl.directed_histories()]
     jobs += [("rand", ctx.seed * 1000003 + i) for i in range(500 if q else 40000)]
     results = pmap(_dispatch, jobs, workers=ctx.workers, chunksize=64)
     hists = [r[0] for r in results]
+    ctx.notes["phase_s"]["run"] = round(ctx.elapsed(), 1)
     per = [r[1] for r in results]
     for (kind, _), lines in zip(jobs, per):
         f = _features(lines)
@@ -191,6 +193,7 @@ def run(ctx: Ctx):
             continue
         seen.add((rj["t"], _key(rj)))
         ctx.violation(_key(rj), rj["clause"], {"history": hists[rj["t"]], "i": rj["i"], "flow": jobs[rj["t"]][0]}, kind="x02-history")
+    ctx.notes["phase_s"]["judge"] = round(ctx.elapsed(), 1)
     ctx.notes["lines"] = dict(collections.Counter(ln["flow"] for ln in lines))
     ctx.notes["histories"] = dict(collections.Counter(j[0] for j in jobs))
     ctx.notes["drift_kinds"] = dict(collections.Counter(d.get("what", "?") for d in ctx.model_drift))
